@@ -136,7 +136,14 @@ func c12rCheck(env *c12rEnv, x *xsched.Exec) []vrt.Finding {
 }
 
 func TestVerifC12Race(t *testing.T) {
-	r := vrt.Start("C12")
+	// The unit also serves C11 (a query during a list refresh is classified
+	// by the previous or the new list, and afterwards by the new one): the
+	// driver then sets VERIF_PROP.
+	prop := "C12"
+	if p := os.Getenv("VERIF_PROP"); p != "" {
+		prop = p
+	}
+	r := vrt.Start(prop)
 	c12rDir = t.TempDir()
 	// Refreshes replace their cache files with fsync; a tmpfs directory keeps
 	// that cheap.  The files are real files either way.
